@@ -129,7 +129,7 @@ def weighted_probe(script, real, rng, summary):
     the optimum; both optimisers, then a fresh z3 is asked for a strictly better valid schedule"""
     tasks = [d for d in script if d["op"] == "task" and not d.get("optional")]
     base = [d for d in script if d["op"] != "objective"]
-    ws = rng.choice([(2, 3), (3, 2), (5, 7), (3, 5), (4, 6), (3, 4, 5), (2, 5)])
+    ws = rng.choice([(2, 3), (3, 2), (5, 7), (3, 5), (4, 6), (3, 4, 5), (2, 5), (0, 1), (1, 0), (2, 0, 3), (0, 2)])
     if len(tasks) < 2 or real.problem.horizon is None or rng.random() < 0.5:
         # a loose problem of its own (the generated one often leaves the weighted sum only a handful of values): 2-3
         # fixed-duration tasks sharing one worker on a generous horizon
@@ -400,6 +400,7 @@ def run_c13(script, rng, summary):
 
 # ---------------------------------------------------------------------------------- C15
 CONFIGS = [
+    {"optimizer": "optimize", "logics": "QF_LIA"}, {"optimizer": "optimize", "logics": "QF_UFLIA"},
     {}, {"optimizer": "optimize"}, {"optimizer": "optimize", "optimize_priority": "lex"},
     {"optimizer": "optimize", "optimize_priority": "box"}, {"optimizer": "optimize", "optimize_priority": "weight"},
     {"parallel": True}, {"random_values": True}, {"debug": True}, {"verbosity": 1},
